@@ -242,7 +242,7 @@ extra8b = {
  'C15': ' Ring identity: whatever in-tree code adds to a ConsistentHash is a fmt.Stringer in the form it is added, and the fields its String() returns are written only where the object is built (R9).',
  'C17': ' The configuration center hands the document to the format loader byte for byte (R16); YAML is never decoded in strict mode (R17).',
  'C19': ' SetExpire stores its argument into the lease field on every path (R10).',
- 'C20': ' A constant index into a handed list in the parser package is dominated by a length test, the analyzer included (R2b; found and fixed F47).',
+ 'C20': ' A constant index into a handed list in the parser package is dominated by a length test, the analyzer included (R2b; found and fixed F47); the closing token of a block node never shares the opening token\'s line with a comment (R19; found and fixed F48).',
 }
 for k, v in extra8b.items():
     lvl, tech, text, note, ref = claims[k]
